@@ -31,6 +31,7 @@ func init() {
 			{ID: "C06.R9", Text: "no mixture across vBuckets: every position move is made with the vBucket id and offset of one and the same event (same rule as C01.R3)", Run: c01r3},
 			{ID: "C06.R10", Text: "tracked offsets are offsets of events: every call of the position writer is an acknowledgement or an absorption of an event's own offset — no synthetic position is ever stored (same rule as C01.R2)", Run: c01r2},
 			{ID: "C06.R11", Text: "a loaded checkpoint is a whole document: the map wrapper installs decoded entries only when the entire input decoded, and forwards faithfully otherwise (same rule as C04.R9)", Run: wrapperFaithful},
+			{ID: "C06.R12", Text: "offsets carry the branch the stream was opened on: SetVbUUID stores its parameter into observer.vbUUID unconditionally", Run: setterStores},
 			{ID: "C06.R5", Text: "the persisted document is built field by field from one offset (same rule as C02.R2)", Run: c02r2},
 		},
 	})
